@@ -309,6 +309,7 @@ fn decoder_history(rng: &mut Rng, out: &mut CaseOut) {
     let mut api = pick_api(rng, true);
     let mut log: Vec<String> = Vec::new();
     let mut dec: Option<Box<dyn DynDec>> = None;
+    let mut prev_set: Option<(Vec<usize>, Vec<usize>)> = None;
     let mut cur: Option<(usize, usize, usize)> = None;
     let mut shapes_done: Vec<(usize, usize, usize, RateKind)> = Vec::new();
     let r = guarded(|| {
@@ -316,6 +317,24 @@ fn decoder_history(rng: &mut Rng, out: &mut CaseOut) {
             let same = cur.is_some() && rng.chance(1, 5);
             let (k, r, size) = if same {
                 cur.unwrap()
+            } else if cur.is_some() && rng.chance(1, 4) {
+                // a neighbour of the current configuration: one or two shards
+                // more or fewer on one side, same shard size (consecutive
+                // stripes of one stream look like this)
+                let (ck, cr, cs) = cur.unwrap();
+                let (mut nk, mut nr) = (ck, cr);
+                let d = rng.range(1, 2);
+                match rng.below(4) {
+                    0 => nk = ck + d,
+                    1 => nk = ck.saturating_sub(d).max(1),
+                    2 => nr = cr + d,
+                    _ => nr = cr.saturating_sub(d).max(1),
+                }
+                if gen::rate_ok(api_rate(api), nk, nr) {
+                    (nk, nr, cs)
+                } else {
+                    (ck, cr, cs)
+                }
             } else {
                 let hc = hist_class(rng);
                 let (k, r) = gen::config(rng, hc, api_rate(api));
@@ -383,7 +402,38 @@ fn decoder_history(rng: &mut Rng, out: &mut CaseOut) {
             let rate = api_rate(api);
             let recovery = codec::encode_fresh(Api::Rate(rate, EngineKind::NoSimd), k, r, size, &originals)
                 .expect("reference encode");
-            let (mut orig_idx, mut rec_idx, shape) = gen::received_set(rng, k, r);
+            let (mut orig_idx, mut rec_idx, mut shape) = gen::received_set(rng, k, r);
+            // a third of the rounds lose the same shards as the round before
+            // (as far as the indexes exist here), topped up to k shards; and
+            // now and then nothing but recovery shards arrives, all of them
+            if let (Some((po, pr)), true) = (&prev_set, rng.chance(1, 3)) {
+                let po: &Vec<usize> = po;
+                let pr: &Vec<usize> = pr;
+                orig_idx = po.iter().copied().filter(|i| *i < k).collect();
+                rec_idx = pr.iter().copied().filter(|i| *i < r).collect();
+                let mut next = 0;
+                while orig_idx.len() + rec_idx.len() < k && next < r {
+                    if !rec_idx.contains(&next) {
+                        rec_idx.push(next);
+                    }
+                    next += 1;
+                }
+                let mut next = 0;
+                while orig_idx.len() + rec_idx.len() < k {
+                    if !orig_idx.contains(&next) {
+                        orig_idx.push(next);
+                    }
+                    next += 1;
+                }
+                orig_idx.sort_unstable();
+                rec_idx.sort_unstable();
+                shape = "same-as-previous-round";
+            } else if r >= k && rng.chance(1, 8) {
+                orig_idx = Vec::new();
+                rec_idx = (0..r).collect();
+                shape = "all-recovery-no-original";
+            }
+            prev_set = Some((orig_idx.clone(), rec_idx.clone()));
             let short = rng.chance(1, 10);
             if short {
                 // too few shards: decode must fail identically on both objects
